@@ -4,6 +4,8 @@
 (* Objects: 1, 2 = commits the server has (A, B); 3 = a commit that exists *)
 (* only in the pack the client sends (C); 4 = a commit that is neither in  *)
 (* the server's store nor in the pack (M).                                 *)
+(* The spaces are predicates over the variable `push` (existential         *)
+(* quantifiers that TLC enumerates lazily) rather than sets of records.    *)
 (***************************************************************************)
 EXTENDS RecvPack
 
@@ -21,7 +23,8 @@ Local(cmds, atomic) ==
      packok |-> TRUE, decl |-> {}, predecl |-> FALSE]
 
 Plain == <<TRUE, {}, FALSE>>
-\* every way a push can be made to fail other than through its old values
+\* every way a push can be made to fail other than through its old values:
+\* pre-receive hook declines, damaged pack, update hook declines one of the refs
 VarAll(cmds) == {Plain, <<TRUE, {}, TRUE>>}
                 \cup (IF Needs(cmds) THEN {<<FALSE, {}, FALSE>>} ELSE {})
                 \cup {<<TRUE, {r}, FALSE>> : r \in CmdRefs(cmds)}
@@ -32,52 +35,67 @@ VarSome(cmds) == {Plain, <<TRUE, {cmds[Len(cmds)].r}, FALSE>>}
 Cmd1(os, ns) == {<<Cmd(r, o, n)>> : r \in Refs, o \in os, n \in ns}
 Cmd2(os, ns) == UNION {{<<Cmd(r1, o1, n1), Cmd(r2, o2, n2)>> :
                                r2 \in Refs \ {r1}, o1 \in os, o2 \in os, n1 \in ns, n2 \in ns} : r1 \in Refs}
-\* all wire pushes with command lists cs, capability sets cps, failure variants V(c)
-WAll(cs, cps) == UNION {{Wire(c, caps, v) : caps \in cps, v \in VarAll(c)} : c \in cs}
-WSome(cs, cps) == UNION {{Wire(c, caps, v) : caps \in cps, v \in VarSome(c)} : c \in cs}
+LCmd1(ns) == {<<Cmd(r, 0, n)>> : r \in Refs, n \in ns}
+LCmd2(ns) == UNION {{<<Cmd(r1, 0, n1), Cmd(r2, 0, n2)>> : r2 \in Refs \ {r1}, n1 \in ns, n2 \in ns} : r1 \in Refs}
 
 InitsOver(vals) == {[refs |-> f, store |-> {1, 2}] : f \in [Refs -> vals]}
 Inits01 == InitsOver({0, 1})
 Inits012 == InitsOver({0, 1, 2})
 
-One(S) == {[p \in Pushers |-> d] : d \in S}
-
 OldV == {0, 1, 2}
 NewV == {0, 1, 3, 4}
 CapsFew == {{"report-status"}, {"report-status", "atomic"}, AllCaps, {"atomic", "side-band-64k"}}
+CapsMC == {{}, {"report-status"}, {"report-status", "atomic"}}
+CapsRS == {{"report-status"}, {"report-status", "atomic"}}
+
+One(d) == [p \in Pushers |-> d]
+Two(a, b) == (1 :> a) @@ (2 :> b)
+WAll(x, cs, cps) == \E c \in cs, caps \in cps : \E v \in VarAll(c) : x = One(Wire(c, caps, v))
+WSome(x, cs, cps) == \E c \in cs, caps \in cps : \E v \in VarSome(c) : x = One(Wire(c, caps, v))
 
 \* ---- sequential case spaces (one pusher) ------------------------------------------------
 \* quick: one command x every capability set x every failure variant; two commands x four
 \* capability sets x three variants
-WireQuick ==
-    One(WAll(Cmd1(OldV, NewV), SUBSET AllCaps) \cup WSome(Cmd2(OldV, NewV), CapsFew))
+WireQuick(x) == WAll(x, Cmd1(OldV, NewV), SUBSET AllCaps) \/ WSome(x, Cmd2(OldV, NewV), CapsFew)
 \* thorough: everything x everything
-WireFull ==
-    One(WAll(Cmd1(OldV, NewV) \cup Cmd2(OldV, NewV), SUBSET AllCaps))
-\* model checking only (no emission): one capability set per behaviourally distinct class
-WireMC ==
-    One(WAll(Cmd1(OldV, NewV) \cup Cmd2(OldV, NewV), {{}, {"report-status"}, {"report-status", "atomic"}}))
+WireFull(x) == WAll(x, Cmd1(OldV, NewV) \cup Cmd2(OldV, NewV), SUBSET AllCaps)
+\* model checking only: one capability set per behaviourally distinct class
+WireMC(x) == WAll(x, Cmd1(OldV, NewV) \cup Cmd2(OldV, NewV), CapsMC)
+LocalAll(x) == \E c \in LCmd1(NewV \cup {2}) \cup LCmd2(NewV \cup {2}), a \in BOOLEAN : x = One(Local(c, a))
 
-LCmd1(news) == {<<Cmd(r, 0, n)>> : r \in Refs, n \in news}
-LCmd2(news) == UNION {{<<Cmd(r1, 0, n1), Cmd(r2, 0, n2)>> : r2 \in Refs \ {r1}, n1 \in news, n2 \in news} : r1 \in Refs}
-LocalAll == One({Local(c, a) : c \in LCmd1(NewV \cup {2}) \cup LCmd2(NewV \cup {2}), a \in BOOLEAN})
-
-\* ---- racing spaces (two pushers; pusher 2 sends one command for ref 1, no pack) ---------
-Two(S1, S2) == {(1 :> a) @@ (2 :> b) : a \in S1, b \in S2}
+\* ---- racing spaces (two pushers) --------------------------------------------------------
+\* replayed on the real code: pusher 2 sends one command for ref 1 and no pack
 Racer == {Wire(<<Cmd(1, o, n)>>, {"report-status"}, Plain) : o \in {0, 1}, n \in {0, 2}}
 RaceCmds == Cmd1({0, 1}, {0, 1, 3})
             \cup {<<Cmd(1, o, n), Cmd(2, 1, m)>> : o \in {0, 1}, n \in {0, 1, 3}, m \in {0, 3}}
             \cup {<<Cmd(2, 1, m), Cmd(1, o, n)>> : o \in {0, 1}, n \in {0, 1, 3}, m \in {0, 3}}
 RaceInits == {[refs |-> (1 :> v) @@ (2 :> 1), store |-> {1, 2}] : v \in {0, 1}}
-RaceWire == Two({Wire(c, caps, Plain) : c \in RaceCmds, caps \in {{"report-status"}, {"report-status", "atomic"}}}, Racer)
+RaceWire(x) == \E c \in RaceCmds, caps \in CapsRS, b \in Racer : x = Two(Wire(c, caps, Plain), b)
+\* quick tier: pusher 1 sends at most one command per ref, new values 0 / C
+RaceCmdsQ == Cmd1({0, 1}, {0, 3})
+             \cup {<<Cmd(1, o, n), Cmd(2, 1, 3)>> : o \in {0, 1}, n \in {0, 3}}
+             \cup {<<Cmd(2, 1, 3), Cmd(1, o, n)>> : o \in {0, 1}, n \in {0, 3}}
+RaceWireQ(x) == \E c \in RaceCmdsQ, caps \in CapsRS, b \in Racer : x = Two(Wire(c, caps, Plain), b)
 LRaceCmds == {<<Cmd(1, 0, n)>> : n \in {0, 3}}
              \cup {<<Cmd(1, 0, n), Cmd(2, 0, m)>> : n \in {0, 3}, m \in {0, 3}}
              \cup {<<Cmd(2, 0, m), Cmd(1, 0, n)>> : n \in {0, 3}, m \in {0, 3}}
-RaceLocal == Two({Local(c, a) : c \in LRaceCmds, a \in BOOLEAN}, Racer)
-\* model checking: any two wire pushes of up to two / one commands
-RaceMC == Two(WSome(Cmd1({0, 1}, {0, 1, 3, 4}) \cup Cmd2({0, 1}, {0, 3, 4}), {{"report-status"}, {"report-status", "atomic"}}),
-              {Wire(c, {"report-status"}, Plain) : c \in Cmd1({0, 1, 2}, {0, 2, 3})}
-              \cup {Local(c, a) : c \in LCmd1({0, 2, 3}), a \in BOOLEAN})
-RaceLocalMC == Two({Local(c, a) : c \in LCmd1({0, 1, 3, 4}) \cup LCmd2({0, 3, 4}), a \in BOOLEAN},
-                   {Wire(c, {"report-status"}, Plain) : c \in Cmd1({0, 1, 2}, {0, 2, 3})})
+RaceLocal(x) == \E c \in LRaceCmds, a \in BOOLEAN, b \in Racer : x = Two(Local(c, a), b)
+\* model checking: a wire push of up to two commands against any wire or local push of one
+RaceMC(x) ==
+    \E c \in Cmd1({0, 1}, {0, 1, 3, 4}) \cup Cmd2({0, 1}, {0, 3, 4}), caps \in CapsRS : \E v \in VarSome(c) :
+        \/ \E c2 \in Cmd1({0, 1, 2}, {0, 2, 3}) : x = Two(Wire(c, caps, v), Wire(c2, {"report-status"}, Plain))
+        \/ \E c2 \in LCmd1({0, 2, 3}), a \in BOOLEAN : x = Two(Wire(c, caps, v), Local(c2, a))
+\* quick tier model checking: as RaceMC with fewer values
+RaceMCQ(x) ==
+    \E c \in Cmd1({0, 1}, {0, 3, 4}) \cup Cmd2({1}, {0, 3}), caps \in CapsRS : \E v \in VarSome(c) :
+        \/ \E c2 \in Cmd1({0, 1}, {0, 2}) : x = Two(Wire(c, caps, v), Wire(c2, {"report-status"}, Plain))
+        \/ \E c2 \in LCmd1({0, 2}), a \in BOOLEAN : x = Two(Wire(c, caps, v), Local(c2, a))
+\* three pushers: two wire pushes of one command each and a local push, all on the same two refs
+Three(a, b, c) == (1 :> a) @@ (2 :> b) @@ (3 :> c)
+RaceMC3(x) ==
+    \E c1 \in Cmd1({0, 1}, {0, 3}), c2 \in Cmd2({1}, {0, 2}), c3 \in LCmd1({0, 2}), caps \in CapsRS :
+        x = Three(Wire(c1, {"report-status"}, Plain), Wire(c2, caps, Plain), Local(c3, TRUE))
+RaceLocalMC(x) ==
+    \E c \in LCmd1({0, 1, 3, 4}) \cup LCmd2({0, 3, 4}), a \in BOOLEAN, c2 \in Cmd1({0, 1, 2}, {0, 2, 3}) :
+        x = Two(Local(c, a), Wire(c2, {"report-status"}, Plain))
 =============================================================================
